@@ -316,3 +316,144 @@ func genStrFns(repo, out string) {
 	}
 	writeIfChanged(filepath.Join(out, "StrFns.v"), b.String())
 }
+
+// ---- the architecture step of each packager (ensureValidArch / rpm.setDefaults) ----
+// if info.<Fmt>.Arch != "" { info.Arch = info.<Fmt>.Arch } else if a, ok := <table>[info.Arch]; ok { info.Arch = a }
+// is translated branch by branch into the expression for the new value of info.Arch; every other shape is untranslatable.
+
+var fmtBlocks = map[string]string{"Deb": "deb", "RPM": "rpm", "APK": "apk", "IPK": "ipk", "ArchLinux": "archlinux"}
+
+func (c *trCtx) archValue(e ast.Expr) string {
+	if se, ok := e.(*ast.SelectorExpr); ok {
+		if inner, ok := se.X.(*ast.SelectorExpr); ok && se.Sel.Name == "Arch" {
+			if id, ok := inner.X.(*ast.Ident); ok && id.Name == "info" {
+				if blk, ok := fmtBlocks[inner.Sel.Name]; ok {
+					return `(gs i "` + blk + `.arch"%string)`
+				}
+			}
+		}
+		if id, ok := se.X.(*ast.Ident); ok && id.Name == "info" && se.Sel.Name == "Arch" {
+			return "arch"
+		}
+	}
+	if id, ok := e.(*ast.Ident); ok {
+		return "v_" + id.Name
+	}
+	return c.fail("architecture expression outside the subset")
+}
+
+// assignsArch: the block is exactly "info.Arch = e"
+func (c *trCtx) assignsArch(b *ast.BlockStmt) string {
+	if len(b.List) == 1 {
+		if as, ok := b.List[0].(*ast.AssignStmt); ok && as.Tok == token.ASSIGN && len(as.Lhs) == 1 && len(as.Rhs) == 1 {
+			if se, ok := as.Lhs[0].(*ast.SelectorExpr); ok && se.Sel.Name == "Arch" {
+				if id, ok := se.X.(*ast.Ident); ok && id.Name == "info" {
+					return c.archValue(as.Rhs[0])
+				}
+			}
+		}
+	}
+	return c.fail("a branch that does something else than assign info.Arch")
+}
+
+func (c *trCtx) archIf(x *ast.IfStmt, table *string) string {
+	var thenV, condV string
+	if x.Init != nil {
+		// a, ok := table[info.Arch]; ok
+		as, ok := x.Init.(*ast.AssignStmt)
+		if !ok || as.Tok != token.DEFINE || len(as.Lhs) != 2 || len(as.Rhs) != 1 {
+			return c.fail("init statement outside the subset")
+		}
+		ix, ok := as.Rhs[0].(*ast.IndexExpr)
+		okName, _ := as.Lhs[1].(*ast.Ident)
+		cond, _ := x.Cond.(*ast.Ident)
+		tab, _ := ix.X.(*ast.Ident)
+		if !ok || okName == nil || cond == nil || cond.Name != okName.Name || tab == nil {
+			return c.fail("map lookup outside the subset")
+		}
+		*table = tab.Name
+		v := as.Lhs[0].(*ast.Ident).Name
+		thenV = c.assignsArch(x.Body)
+		els := "arch"
+		if x.Else != nil {
+			return c.fail("else after the table lookup")
+		}
+		return "match lookup " + c.archValue(ix.Index) + " tab with Some v_" + v + " => " + thenV + " | None => " + els + " end"
+	}
+	condV = c.cond2(x.Cond)
+	thenV = c.assignsArch(x.Body)
+	els := "arch"
+	switch e := x.Else.(type) {
+	case nil:
+	case *ast.IfStmt:
+		els = c.archIf(e, table)
+	default:
+		return c.fail("else block outside the subset")
+	}
+	return "if " + condV + " then " + thenV + " else " + els
+}
+
+// cond2: e != "" over architecture expressions
+func (c *trCtx) cond2(e ast.Expr) string {
+	if be, ok := e.(*ast.BinaryExpr); ok && be.Op == token.NEQ {
+		if s, ok := strLit(be.Y); ok && s == "" {
+			return "nonempty " + c.archValue(be.X)
+		}
+	}
+	return c.fail("condition outside the subset")
+}
+
+func genArchFns(repo, out string) {
+	var b strings.Builder
+	b.WriteString("(* GENERATED from /repo on every run by translators/strfn.go (genArchFns) - do not edit.\n   The architecture step of every packager: the new value of info.Arch, given the packager's table. *)\n")
+	b.WriteString("From Coq Require Import List String Bool.\nFrom Coq Require Import Strings.Byte.\nFrom NfpmV Require Import Lib.Bytes Model.Content Model.Meta.\nImport ListNotations.\n\n")
+	for _, t := range []struct{ file, fn, name string }{{"deb/deb.go", "ensureValidArch", "deb"}, {"rpm/rpm.go", "setDefaults", "rpm"}, {"apk/apk.go", "ensureValidArch", "apk"},
+		{"ipk/ipk.go", "ensureValidArch", "ipk"}, {"arch/arch.go", "ensureValidArch", "arch"}} {
+		f := parseFile(filepath.Join(repo, t.file))
+		c := &trCtx{}
+		body, table := "arch", ""
+		found := false
+		for _, d := range f.Decls {
+			if fd, ok := d.(*ast.FuncDecl); ok && fd.Name.Name == t.fn && fd.Body != nil {
+				found = true
+				// the statements that touch info.Arch: exactly one, the first
+				n := 0
+				for k, st := range fd.Body.List {
+					touches := false
+					ast.Inspect(st, func(m ast.Node) bool {
+						if as, ok := m.(*ast.AssignStmt); ok {
+							for _, l := range as.Lhs {
+								if se, ok := l.(*ast.SelectorExpr); ok && se.Sel.Name == "Arch" {
+									if id, ok := se.X.(*ast.Ident); ok && id.Name == "info" {
+										touches = true
+									}
+								}
+							}
+						}
+						return true
+					})
+					if touches {
+						n++
+						if is, ok := st.(*ast.IfStmt); ok && k == 0 {
+							body = c.archIf(is, &table)
+						} else {
+							c.fail("info.Arch assigned outside a leading if")
+						}
+					}
+				}
+				if n != 1 {
+					c.fail("%d statements assign info.Arch", n)
+				}
+			}
+		}
+		if !found {
+			c.fail("no function %s", t.fn)
+		}
+		if c.err != "" {
+			fmt.Fprintf(&b, "(* %s %s: UNTRANSLATABLE - %s *)\nDefinition src_%s_arch (tab : list (str * str)) (i : minfo) (arch : str) : str := [].\nDefinition src_%s_arch_table : str := [].\nDefinition src_%s_arch_translated : bool := false.\n\n", t.file, t.fn, c.err, t.name, t.name, t.name)
+			continue
+		}
+		fmt.Fprintf(&b, "(* %s: func %s *)\nDefinition src_%s_arch (tab : list (str * str)) (i : minfo) (arch : str) : str :=\n  %s.\nDefinition src_%s_arch_table : str := %s.\nDefinition src_%s_arch_translated : bool := true.\n\n", t.file, t.fn, t.name, body, t.name, coqStr(table), t.name)
+	}
+	writeIfChanged(filepath.Join(out, "ArchFns.v"), b.String())
+}
